@@ -161,10 +161,36 @@ def functions(tree) -> Dict[str, ast.AST]:
     return out
 
 
+def rebinds(fnode) -> List[List[str]]:
+    """[[name, rhs text]] of the plain assignments `name = E(name)` that
+    re-bind a local from its own old value (the reference for T2's
+    rebinding step: a clean-up that gives the new value its own name)."""
+    out = []
+    for n in own_nodes(fnode):
+        if isinstance(n, ast.Assign) and len(n.targets) == 1 and isinstance(
+                n.targets[0], ast.Name):
+            w = n.targets[0].id
+            if any(isinstance(x, ast.Name) and x.id == w
+                   for x in ast.walk(n.value)):
+                out.append([w, _unparse(n.value)])
+    return sorted(out)
+
+
+REBINDS = '#rebinds'
+
+
 def snapshot(trees: Dict[str, ast.AST]) -> dict:
-    return {rel: {q: [list(b) for b in bindings(f)]
+    snap = {rel: {q: [list(b) for b in bindings(f)]
                   for q, f in sorted(functions(t).items())}
             for rel, t in sorted(trees.items())}
+    rb = {}
+    for rel, t in sorted(trees.items()):
+        per = {q: rebinds(f) for q, f in sorted(functions(t).items())}
+        per = {q: v for q, v in per.items() if v}
+        if per:
+            rb[rel] = per
+    snap[REBINDS] = rb
+    return snap
 
 
 # --------------------------------------------------------------------------
@@ -306,6 +332,52 @@ def _as_expr(stmts):
     return None
 
 
+def _tailify(stmts, mk, proc):
+    """A block whose `return`s are all in tail position, with each
+    `return e` replaced by mk(<the return>) and the code after an exiting
+    `if` moved into its `else`; None when a return is not in tail position
+    (inside a loop / try / with), or -- unless `proc` (bare returns, value
+    unused) -- when some path falls off the end or returns nothing."""
+    out = []
+    for i, s in enumerate(stmts):
+        rest = list(stmts[i + 1:])
+        if isinstance(s, ast.Return):
+            if rest:
+                return None
+            if s.value is None:
+                return out if proc else None
+            out.append(mk(s))
+            return out
+        if not any(isinstance(x, ast.Return) for x in ast.walk(s)):
+            out.append(s)
+            continue
+        if not isinstance(s, ast.If):
+            return None
+        b_exit = _exits(s.body)
+        o_exit = bool(s.orelse) and _exits(s.orelse)
+        if b_exit and o_exit:
+            if rest:
+                return None
+            nb = _tailify(s.body, mk, proc)
+            no = _tailify(s.orelse, mk, proc)
+        elif b_exit:
+            nb = _tailify(s.body, mk, proc)
+            no = _tailify(list(s.orelse) + rest, mk, proc)
+        elif o_exit:
+            nb = _tailify(list(s.body) + rest, mk, proc)
+            no = _tailify(s.orelse, mk, proc)
+        else:
+            return None
+        if nb is None or no is None:
+            return None
+        new = ast.If(test=s.test, body=nb or [ast.copy_location(
+            ast.Pass(), s)], orelse=no)
+        ast.copy_location(new, s)
+        out.append(new)
+        return out
+    return out if proc else None
+
+
 class _Helper:
     """A new function and what shape of inlining it admits."""
 
@@ -352,6 +424,10 @@ class _Helper:
             if all(r is body[-1] for r in rets):
                 self.kind = 'stmt'
                 return True
+            if _tailify(body, None, True) is not None:
+                # early `return`s, all in tail position of an if-tree
+                self.kind = 'procbody'
+                return True
             return False
         if len(rets) == 1 and rets[0] is body[-1]:
             self.kind = 'value'
@@ -371,6 +447,12 @@ class _Helper:
             # `try: return e / except X: raise ...` as the last statement:
             # the return is in tail position and every other way out raises
             self.kind = 'tail'
+            return True
+        if len(valued) == len(rets) and _tailify(
+                body, lambda r: r, False) is not None:
+            # every path ends in `return e`, each in tail position of an
+            # if-tree: the body takes the place of `return h()` / `x = h()`
+            self.kind = 'retbody'
             return True
         return False
 
@@ -465,8 +547,16 @@ def _expand(helper: _Helper, binding: dict, caller_names: set, tag: str,
         if p in stored or (not _simple(arg) and used.get(p, 0) > 1
                            and helper.kind != 'expr'):
             newp = p
-            if p in caller_names and not (
-                    isinstance(arg, ast.Name) and arg.id == p):
+            same = isinstance(arg, ast.Name) and arg.id == p
+            # (same name, written by the helper: the caller's variable would
+            # be clobbered unless its value is dead after the site or the
+            # site itself re-binds it)
+            rebound = isinstance(site, ast.Assign) and len(
+                site.targets) == 1 and isinstance(
+                site.targets[0], ast.Name) and site.targets[0].id == p
+            if p in caller_names and (not same or (
+                    p in stored and not rebound
+                    and _live_across(fnode, p, site))):
                 newp = f'{p}__{tag}'
                 renames[p] = newp
             prefix.append(ast.Assign(
@@ -499,6 +589,18 @@ def _expand(helper: _Helper, binding: dict, caller_names: set, tag: str,
             new.value = ret.value
         ast.copy_location(new, ret)
         _replace_stmt(body, ret, new)
+    elif helper.kind in ('retbody', 'procbody'):
+        def mk(ret):
+            if isinstance(site, ast.Return):
+                return ret
+            if isinstance(site, ast.Expr):
+                new = ast.Expr(value=ret.value)
+            else:
+                new = copy.deepcopy(site)
+                new.value = ret.value
+            return ast.copy_location(new, ret)
+        body = _tailify(body, mk, helper.kind == 'procbody') or [
+            ast.Pass(lineno=f.lineno, col_offset=0)]
     elif body and isinstance(body[-1], ast.Return):
         body = body[:-1]
     for s in prefix + body:
@@ -598,11 +700,11 @@ class _Inliner:
                 call = self._call_of(s.value)
                 m = self._match(call, cls) if call is not None else None
                 if m is not None and m[0].ok and m[0].kind in (
-                        'stmt', 'value', 'tail') and (
+                        'stmt', 'value', 'tail', 'retbody', 'procbody') and (
                         isinstance(s, ast.Expr)
-                        or m[0].kind in ('value', 'tail')) and not (
-                        m[0].kind == 'tail' and isinstance(
-                            s.value, ast.Await)):
+                        or m[0].kind in ('value', 'tail', 'retbody')) and not (
+                        m[0].kind in ('tail', 'retbody', 'procbody')
+                        and isinstance(s.value, ast.Await)):
                     h, recv = m
                     is_await = isinstance(s.value, ast.Await)
                     if is_await == isinstance(h.node, ast.AsyncFunctionDef):
@@ -804,9 +906,9 @@ def _rename_in(fnode, renames):
             sub.visit(v)
 
 
-def _t2_rename(rel, tree, ref_funcs, notes):
+def _t2_rename(rel, tree, ref_funcs, notes, only=None):
     for q, f in functions(tree).items():
-        if q not in ref_funcs:
+        if q not in ref_funcs or (only is not None and q != only):
             continue
         old = [tuple(b) for b in ref_funcs[q]]
         new = bindings(f)
@@ -883,6 +985,68 @@ def _t2_rename(rel, tree, ref_funcs, notes):
                              f'{n}->{o}' for n, o in sorted(renames.items())))
 
 
+def _pos(n):
+    return (getattr(n, 'lineno', 0), getattr(n, 'col_offset', 0))
+
+
+def _t2_rebind(rel, tree, ref_funcs, ref_rebinds, notes, only=None):
+    """The reference re-binds a local from its own value (`w = E(w)`); the
+    tree gives the new value a new name (`v = E(w)`) and no longer mentions
+    `w` afterwards: `v` is renamed to `w` (same slot, same values)."""
+    for q, f in functions(tree).items():
+        if q not in ref_funcs or q not in ref_rebinds or (
+                only is not None and q != only):
+            continue
+        old_names = {b[0] for b in ref_funcs[q]}
+        for w, rtext in ref_rebinds[q]:
+            stmts = [n for n in own_nodes(f) if isinstance(n, ast.Assign)
+                     and len(n.targets) == 1
+                     and isinstance(n.targets[0], ast.Name)
+                     and n.targets[0].id not in old_names
+                     and _unparse(n.value) == rtext]
+            if len(stmts) != 1:
+                continue
+            st = stmts[0]
+            v = st.targets[0].id
+            stores = [n for n in ast.walk(f) if isinstance(n, ast.Name)
+                      and n.id == v and isinstance(n.ctx, (ast.Store, ast.Del))]
+            if len(stores) != 1:
+                continue
+            inside = {id(n) for n in ast.walk(st)}
+            own = {id(n) for n in own_nodes(f)}
+            ok = True
+            for n in ast.walk(f):
+                if isinstance(n, ast.arg) and n.arg == w and id(n) not in own:
+                    ok = False
+                if not (isinstance(n, ast.Name) and n.id == w):
+                    continue
+                if id(n) not in own:
+                    ok = False      # a nested scope sees `w`
+                elif id(n) not in inside and _pos(n) > _pos(st):
+                    ok = False      # the old value is still used
+            # not in a loop (a later iteration would read the new value)
+            p = _parent_map(f)
+            x = st
+            while ok and id(x) in p:
+                x = p[id(x)]
+                if isinstance(x, (ast.For, ast.AsyncFor, ast.While)):
+                    ok = False
+            if not ok:
+                continue
+            _rename_in(f, {v: w})
+            notes.append(f'{rel}: {q}: new local `{v}` holds the re-bound '
+                         f'value of `{w}` (`{w} = {rtext}` in the reference, '
+                         f'`{w}` not used afterwards): renamed to `{w}`')
+
+
+def _parent_map(fnode):
+    out = {}
+    for n in ast.walk(fnode):
+        for ch in ast.iter_child_nodes(n):
+            out[id(ch)] = n
+    return out
+
+
 def _translate(txt: str, inv: Dict[str, str]) -> str:
     """The binding text `txt` with the variables in `inv` renamed (names
     only: keyword-argument names and attributes are left alone)."""
@@ -910,10 +1074,40 @@ def _replace_word(txt, old, new):
     return re.sub(r'(?<![\w.])' + re.escape(old) + r'(?!\w)', new, txt)
 
 
+def _mapping_read(call) -> bool:
+    """`<chain>.get(<constants / names>)` (also items / keys / values):
+    taken for a read of a mapping (assumption A-alias covers what may change
+    the mapping in between; the stability of the chain is checked by the
+    caller like that of a subscript)."""
+    fn = call.func
+    if not (isinstance(fn, ast.Attribute) and fn.attr in (
+            'get', 'items', 'keys', 'values')):
+        return False
+    root = fn.value
+    while isinstance(root, (ast.Attribute, ast.Subscript)):
+        root = root.value
+    if not isinstance(root, ast.Name):
+        return False
+    def plain(a):
+        if isinstance(a, (ast.Constant, ast.Name)):
+            return True
+        if isinstance(a, ast.Dict):
+            return not a.keys               # `{}` default
+        return isinstance(a, (ast.List, ast.Tuple)) and not a.elts
+    return all(plain(a) for a in list(call.args)
+               + [k.value for k in call.keywords])
+
+
 def _pure(e) -> bool:
     for n in ast.walk(e):
         if isinstance(n, ast.Call):
             name = n.func.id if isinstance(n.func, ast.Name) else None
+            if isinstance(n.func, ast.Attribute) and isinstance(
+                    n.func.value, ast.Constant) and isinstance(
+                    n.func.value.value, str):
+                continue        # a str method on a literal: ', '.join(xs)
+            if _mapping_read(n):
+                continue        # `conf.get('k', {})` on a name / chain
             if name not in PURE_CALLS:
                 return False
         elif isinstance(n, (ast.Await, ast.Yield, ast.YieldFrom,
@@ -922,15 +1116,26 @@ def _pure(e) -> bool:
     return True
 
 
-def _t3_propagate(rel, tree, ref_funcs, notes):
+def _t3_propagate(rel, tree, ref_funcs, notes, ref_rebinds=None):
     for q, f in functions(tree).items():
         if q not in ref_funcs:
             continue
         old_names = {b[0] for b in ref_funcs[q]}
-        cands = [b[0] for b in bindings(f)
-                 if b[0] not in old_names and b[1] == 'assign']
-        for name in cands:
-            _propagate_one(rel, q, f, name, notes, tree)
+        tried = set()
+        for _round in range(200):
+            cands = [b[0] for b in bindings(f)
+                     if b[0] not in old_names and b[1] == 'assign'
+                     and b[0] not in tried]
+            if not cands:
+                break
+            tried.add(cands[0])
+            if _propagate_one(rel, q, f, cands[0], notes, tree):
+                # with the temporary gone, more of what is left may pair up
+                # with the reference names (`d = f(x, tmp)` vs `v = f(x, E)`)
+                _t2_rename(rel, tree, ref_funcs, notes, only=q)
+                _t2_rebind(rel, tree, ref_funcs, ref_rebinds or {}, notes,
+                           only=q)
+                tried = set()
 
 
 def _blocks(fnode):
@@ -1132,6 +1337,149 @@ class _AllNames(set):
         return set(other)
 
 
+def _header_exprs(s):
+    """Expressions of a compound statement evaluated once, before its
+    blocks (`while` tests are re-evaluated: none)."""
+    if isinstance(s, ast.If):
+        return [s.test]
+    if isinstance(s, (ast.For, ast.AsyncFor)):
+        return [s.iter]
+    if isinstance(s, (ast.With, ast.AsyncWith)):
+        return [it.context_expr for it in s.items]
+    return []
+
+
+def _evaluated_first(stmt, use) -> bool:
+    """Is the name node `use` evaluated on every execution of `stmt`, and
+    before any call / await of that statement?  (Where a call with effects
+    may be moved from the statement just before.)"""
+    if isinstance(stmt, (ast.Assign, ast.AnnAssign, ast.AugAssign)):
+        roots = [stmt.value] if isinstance(stmt, (ast.Assign, ast.AnnAssign)) \
+            else []         # (an aug-assign reads its target first)
+    elif isinstance(stmt, (ast.Expr, ast.Return)):
+        roots = [stmt.value] if stmt.value is not None else []
+    elif isinstance(stmt, ast.Raise):
+        roots = [stmt.exc] if stmt.exc is not None else []
+    else:
+        roots = _header_exprs(stmt)[:1]
+    state = {'found': False, 'bad': False}
+
+    def ev(n, cond):
+        """Post-order in evaluation order."""
+        if state['found'] or state['bad']:
+            return
+        if n is use:
+            if cond:
+                state['bad'] = True
+            else:
+                state['found'] = True
+            return
+        if isinstance(n, (ast.Lambda, ast.ListComp, ast.SetComp, ast.DictComp,
+                          ast.GeneratorExp)):
+            # only the first iterable of a comprehension is evaluated here
+            if not isinstance(n, ast.Lambda):
+                ev(n.generators[0].iter, cond)
+            if not state['found'] and any(x is use for x in ast.walk(n)):
+                state['bad'] = True
+            return
+        if isinstance(n, ast.BoolOp):
+            ev(n.values[0], cond)
+            for v in n.values[1:]:
+                ev(v, True)
+            return
+        if isinstance(n, ast.IfExp):
+            ev(n.test, cond)
+            ev(n.body, True)
+            ev(n.orelse, True)
+            return
+        if isinstance(n, ast.Compare) and len(n.comparators) > 1:
+            ev(n.left, cond)
+            ev(n.comparators[0], cond)
+            for v in n.comparators[1:]:
+                ev(v, True)
+            return
+        for ch in ast.iter_child_nodes(n):
+            ev(ch, cond)
+        if isinstance(n, (ast.Call, ast.Await, ast.Yield, ast.YieldFrom,
+                          ast.NamedExpr)) and not state['found']:
+            state['bad'] = True
+    for r in roots:
+        ev(r, False)
+    return state['found'] and not state['bad']
+
+
+READONLY_METHODS = {'get', 'items', 'keys', 'values', 'copy', 'index',
+                    'count', 'startswith', 'endswith', 'format', 'join',
+                    'split', 'strip', 'lower', 'upper', 'issubset',
+                    'issuperset', 'isdisjoint', 'union', 'intersection',
+                    'difference'}
+
+
+def _local_root_stable(f, rhs, stmts) -> bool:
+    """The alias `rhs` (an attribute / subscript chain rooted at a local
+    name p of f) denotes the same object throughout `stmts`: no statement
+    stores through p, calls a method (other than a read-only builtin one) on
+    p or on a member reached from p, or lets p or a proper prefix of the
+    chain escape (argument, assignment, return, container element).
+    Assumption A-alias: code that is not handed the object does not re-bind
+    its members."""
+    root = rhs
+    if isinstance(root, ast.Call) and _mapping_read(root):
+        root = root.func.value
+    while isinstance(root, (ast.Attribute, ast.Subscript)):
+        root = root.value
+    if not isinstance(root, ast.Name) or root.id in ('self', 'cls'):
+        return False
+    p = root.id
+    if p not in {b[0] for b in bindings(f) if b[1] != 'import'}:
+        return False        # a global / imported object: anyone can reach it
+    chain = _unparse(rhs)
+    pm = {}
+    for st in stmts:
+        for n in ast.walk(st):
+            for ch in ast.iter_child_nodes(n):
+                pm[id(ch)] = n
+    reads = (ast.Compare, ast.BoolOp, ast.UnaryOp, ast.BinOp,
+             ast.FormattedValue, ast.JoinedStr, ast.IfExp)
+    for st in stmts:
+        for n in ast.walk(st):
+            if not (isinstance(n, ast.Name) and n.id == p):
+                continue
+            if not isinstance(n.ctx, ast.Load):
+                return False
+            top, par = n, pm.get(id(n))
+            while isinstance(par, (ast.Attribute, ast.Subscript)) and \
+                    par.value is top:
+                if not isinstance(par.ctx, ast.Load):
+                    return False        # p.x = .. / p[k] = .. / del p[k]
+                top, par = par, pm.get(id(par))
+            if isinstance(par, ast.Call) and par.func is top:
+                if not (isinstance(top, ast.Attribute)
+                        and top.attr in READONLY_METHODS):
+                    return False        # a method call that may mutate
+                continue
+            if isinstance(par, reads):
+                continue
+            if isinstance(par, ast.Subscript) and par.slice is top:
+                continue
+            if isinstance(par, (ast.If, ast.While)) and par.test is top:
+                continue
+            if isinstance(par, (ast.For, ast.AsyncFor, ast.comprehension)) \
+                    and par.iter is top:
+                continue
+            if isinstance(par, ast.Call) and isinstance(
+                    par.func, ast.Name) and par.func.id in PURE_CALLS:
+                continue
+            # it escapes: harmless unless it is p itself or a proper prefix
+            # of the aliased chain (whoever gets it can re-bind the member)
+            t = _unparse(top)
+            if t == chain or not (chain.startswith(t + '.')
+                                  or chain.startswith(t + '[')):
+                continue
+            return False
+    return True
+
+
 def _propagate_one(rel, q, f, name, notes, tree=None):
     stores = [n for n in ast.walk(f) if isinstance(n, ast.Name)
               and n.id == name and isinstance(n.ctx, (ast.Store, ast.Del))]
@@ -1178,6 +1526,10 @@ def _propagate_one(rel, q, f, name, notes, tree=None):
             # single use
             if len(loads) != 1 or last != 0:
                 return
+            # ... and only to where it is evaluated unconditionally and
+            # before anything else with effects in that statement
+            if not _evaluated_first(span[0], loads[0]):
+                return
         # what happens strictly before the (last) use
         before = span[:-1]
         stored = set()
@@ -1185,6 +1537,16 @@ def _propagate_one(rel, q, f, name, notes, tree=None):
         calls = False
         for st in before:
             stored |= _stored_names(st)
+        # (a compound last statement with a use outside its header: what its
+        # blocks do happens before that use, too)
+        scan = list(before)
+        lst = span[-1]
+        if isinstance(getattr(lst, 'body', None), list):
+            hdr = {id(n) for h in _header_exprs(lst) for n in ast.walk(h)}
+            if any(isinstance(n, ast.Name) and n.id == name
+                   and id(n) not in hdr for n in ast.walk(lst)):
+                scan.append(lst)
+        for st in scan:
             for n in ast.walk(st):
                 if isinstance(n, ast.Attribute) and isinstance(
                         n.ctx, (ast.Store, ast.Del)):
@@ -1204,12 +1566,13 @@ def _propagate_one(rel, q, f, name, notes, tree=None):
                 ast.Name, ast.Attribute, ast.Constant, ast.Call, ast.BoolOp,
                 ast.UnaryOp, ast.Compare, ast.BinOp, ast.IfExp, ast.boolop,
                 ast.unaryop, ast.cmpop, ast.operator, ast.expr_context,
-                ast.Subscript))
+                ast.Subscript, ast.Dict, ast.List, ast.Tuple, ast.keyword))
                 for n in ast.walk(rhs))
             if not (pure and chain_only):
                 return
-            has_sub = any(isinstance(n, ast.Subscript)
-                          for n in ast.walk(rhs))
+            has_sub = any(isinstance(n, ast.Subscript) or (
+                isinstance(n, ast.Call) and _mapping_read(n))
+                for n in ast.walk(rhs))
             if has_sub or rhs_attrs & _unstable_attrs(tree):
                 # (a subscripted chain `self.d[k]` always goes this way: the
                 # entry can be re-bound by item assignment / dict methods)
@@ -1221,9 +1584,11 @@ def _propagate_one(rel, q, f, name, notes, tree=None):
                 # A-alias (DESIGN 9.1a): calls on *other* objects do not
                 # re-bind attributes of `self` behind its back.
                 root = rhs
+                if isinstance(root, ast.Call) and _mapping_read(root):
+                    root = root.func.value
                 while isinstance(root, (ast.Attribute, ast.Subscript)):
                     root = root.value
-                if not (isinstance(root, ast.Name) and root.id == 'self'):
+                if not isinstance(root, ast.Name):
                     return
                 # index expressions must be plain names / constants that are
                 # not re-bound in the span
@@ -1231,12 +1596,22 @@ def _propagate_one(rel, q, f, name, notes, tree=None):
                     if isinstance(n, ast.Subscript) and not isinstance(
                             n.slice, (ast.Name, ast.Constant)):
                         return
-                cls = _class_of(tree, q)
-                if cls is None:
-                    return
-                if _self_closure_stores(tree, cls, before + [span[-1]],
-                                        rhs_attrs):
-                    return
+                if root.id != 'self':
+                    # rooted at a local of this function (`job_conf['k']`,
+                    # `itask.tdef.name`): nothing in the span may touch the
+                    # object other than by reading it
+                    if any(isinstance(n, ast.Call) and not _mapping_read(n)
+                           for n in ast.walk(rhs)):
+                        return
+                    if not _local_root_stable(f, rhs, before + [span[-1]]):
+                        return
+                else:
+                    cls = _class_of(tree, q)
+                    if cls is None:
+                        return
+                    if _self_closure_stores(tree, cls, before + [span[-1]],
+                                            rhs_attrs):
+                        return
         # stores inside the last-use statement itself (e.g. a loop body)
         if _stored_names(span[-1]) & rhs_names and not isinstance(
                 span[-1], (ast.Assign, ast.AnnAssign, ast.AugAssign,
@@ -1267,7 +1642,7 @@ def _propagate_one(rel, q, f, name, notes, tree=None):
         ast.fix_missing_locations(f)
         notes.append(f'{rel}: {q}: new local `{name}` replaced by its '
                      f'definition `{_unparse(rhs)[:80]}`')
-        return
+        return True
 
 
 def _exits(stmts) -> bool:
@@ -1291,13 +1666,40 @@ def _t0_canon_ifs(tree) -> int:
     a rule sees the same shape whichever the source uses."""
     n = 0
 
-    def canon_block(blk, loop_body=False):
+    def canon_block(blk, loop_body=False, in_func=False):
         nonlocal n
         changed = True
         while changed:
             changed = False
             out = []
             for k, s in enumerate(blk):
+                # `x = x` does nothing (left behind by an expanded helper)
+                if isinstance(s, ast.Assign) and len(s.targets) == 1 and \
+                        isinstance(s.targets[0], ast.Name) and isinstance(
+                            s.value, ast.Name) and in_func and \
+                        s.value.id == s.targets[0].id:
+                    out.extend(blk[k + 1:])
+                    blk[:] = out or [ast.copy_location(ast.Pass(), s)]
+                    changed = True
+                    n += 1
+                    break
+                # `if c: pass  else: B`  ->  `if not c: B`
+                if isinstance(s, ast.If) and s.orelse and all(
+                        isinstance(x, ast.Pass) for x in s.body):
+                    if isinstance(s.test, ast.UnaryOp) and isinstance(
+                            s.test.op, ast.Not):
+                        s.test = s.test.operand
+                    else:
+                        neg = ast.UnaryOp(op=ast.Not(), operand=s.test)
+                        ast.copy_location(neg, s.test)
+                        neg.end_lineno = getattr(s.test, 'end_lineno', None)
+                        s.test = neg
+                    s.body, s.orelse = s.orelse, []
+                    out.extend(blk[k:])
+                    blk[:] = out
+                    changed = True
+                    n += 1
+                    break
                 # directly in a loop body: `if c: continue` + rest  ->
                 # `if not c: rest` (the rest runs to the end of the iteration)
                 if loop_body and isinstance(s, ast.If) and not s.orelse \
@@ -1314,7 +1716,7 @@ def _t0_canon_ifs(tree) -> int:
                     ast.copy_location(new, s)
                     new.end_lineno = getattr(blk[-1], 'end_lineno', None)
                     out.append(new)
-                    canon_block(new.body)
+                    canon_block(new.body, in_func=in_func)
                     changed = True
                     n += 1
                     blk[:] = out
@@ -1351,18 +1753,23 @@ def _t0_canon_ifs(tree) -> int:
             blk[:] = out
         return blk
 
-    def rec(node):
+    def rec(node, in_func=False):
+        if isinstance(node, FN):
+            in_func = True
+        elif isinstance(node, ast.ClassDef):
+            in_func = False
         for field in ('body', 'orelse', 'finalbody'):
             blk = getattr(node, field, None)
             if isinstance(blk, list) and blk and isinstance(blk[0], ast.stmt):
                 for s in list(blk):
-                    rec(s)
+                    rec(s, in_func)
                 canon_block(blk, loop_body=(field == 'body' and isinstance(
-                    node, (ast.For, ast.AsyncFor, ast.While))))
+                    node, (ast.For, ast.AsyncFor, ast.While))),
+                    in_func=in_func)
         for h in getattr(node, 'handlers', []) or []:
-            rec(h)
+            rec(h, in_func)
         for c in getattr(node, 'cases', []) or []:
-            rec(c)
+            rec(c, in_func)
     rec(tree)
     return n
 
@@ -1736,7 +2143,9 @@ def normalize(trees: Dict[str, ast.AST], only: Optional[set] = None,
             continue       # identical shape: nothing to do
         _t1_inline(rel, tree, rf, trees, notes)
         _t2_rename(rel, tree, rf, notes)
-        _t3_propagate(rel, tree, rf, notes)
+        _t2_rebind(rel, tree, rf, ref.get(REBINDS, {}).get(rel, {}), notes)
+        _t3_propagate(rel, tree, rf, notes,
+                      ref.get(REBINDS, {}).get(rel, {}))
         t0(tree)       # expanded / substituted code in canonical spelling
         ast.fix_missing_locations(tree)
     return notes
